@@ -31,86 +31,7 @@ func checkC04(rep *core.Report) {
 			r1.Undecided(rel+":anchors", token.NoPos, "template cache anchors not resolved")
 			continue
 		}
-		mt := c.shardT.Underlying().(*types.Struct).Field(c.mapField).Type().Underlying().(*types.Map)
-		// ---- R04.1 (a) key type ----
-		wide := false
-		switch k := mt.Key().Underlying().(type) {
-		case *types.Basic:
-			wide = k.Kind() == types.String
-		case *types.Array:
-			wide = k.Len() >= 18
-		case *types.Struct:
-			wide = true // checked field-wise below by derivation
-		}
-		r1.Check(wide, rel+":key-type", c.shardT.Obj().Pos(), "key type "+mt.Key().String()+" can hold address and id",
-			fmt.Sprintf("the template map is keyed by %s, which cannot be injective on (16-octet address, 16-bit id) pairs: two exporter/id pairs with the same key share one entry and decode each other's data (an exporter chooses its ids, so collisions can be forced)", mt.Key().String()))
-		// ---- R04.1 (b,c) derivation in getShard ----
-		gname := core.FuncName(c.getShard)
-		var idP, addrP *ssa.Parameter
-		for _, p := range c.getShard.Params {
-			if b, ok := p.Type().Underlying().(*types.Basic); ok && b.Kind() == types.Uint16 {
-				idP = p
-			}
-			if typeIs(p.Type(), "net", "IP") {
-				addrP = p
-			}
-		}
-		allInstrs(c.getShard, func(ins ssa.Instruction) {
-			r, ok := ins.(*ssa.Return)
-			if !ok || len(r.Results) != 2 {
-				return
-			}
-			keyV := r.Results[1]
-			sl := core.BackwardSlice(keyV, core.SliceOpts{})
-			r1.Check(idP != nil && addrP != nil && sl[idP] && sl[addrP], gname+":key-depends-on-both", r.Pos(), "key derives from the address and the id",
-				"the cache key does not depend on both the exporter address and the template id: entries of different exporters or ids coincide")
-			lossy := ""
-			for v := range sl {
-				switch x := v.(type) {
-				case *ssa.BinOp:
-					switch x.Op {
-					case token.REM, token.AND, token.SHR, token.XOR, token.AND_NOT, token.QUO:
-						lossy = "operator " + x.Op.String()
-					}
-				case *ssa.Call:
-					n := calleeName(x)
-					if x.Common().IsInvoke() {
-						n = x.Common().Method.FullName()
-					}
-					if strings.Contains(n, "hash") || strings.Contains(n, "Sum") || strings.Contains(n, "crc") || strings.Contains(n, "fnv") || strings.Contains(n, "md5") || strings.Contains(n, "sha") {
-						lossy = "hash function " + n
-					}
-				case *ssa.Convert:
-					sb, ok1 := x.X.Type().Underlying().(*types.Basic)
-					db, ok2 := x.Type().Underlying().(*types.Basic)
-					if ok1 && ok2 && sb.Info()&types.IsInteger != 0 && db.Info()&types.IsInteger != 0 && intBits(db) < intBits(sb) {
-						lossy = "narrowing conversion " + sb.Name() + "->" + db.Name()
-					}
-				}
-			}
-			r1.Check(lossy == "", gname+":key-lossless", r.Pos(), "no lossy operation between (address, id) and the key",
-				"the cache key passes through a lossy operation ("+lossy+"): distinct (exporter, id) pairs can produce the same key")
-			if isStringType(keyV.Type()) {
-				var parts []ssa.Value
-				keyParts(keyV, &parts)
-				amb := false
-				prevVar := false
-				for _, p := range parts {
-					_, isConst := p.(*ssa.Const)
-					if !isConst && prevVar {
-						amb = true
-					}
-					if isConst {
-						if cv := p.(*ssa.Const).Value; cv == nil || cv.ExactString() == `""` {
-							continue
-						}
-					}
-					prevVar = !isConst
-				}
-				r1.Check(!amb && len(parts) >= 2, gname+":key-unambiguous", r.Pos(), "variable parts are separated by constant text",
-					"address text and id text are concatenated without a separator: \"10.0.0.1\"+\"256\" equals \"10.0.0.12\"+\"56\"")
-			}
-		})
+		checkKeyInjective(r1, c)
 		// ---- R04.2 ----
 		for _, fn := range c.touchers {
 			name := core.FuncName(fn)
@@ -189,6 +110,111 @@ func checkC04(rep *core.Report) {
 	} else {
 		r7.Undecided("ipfix.RPC", token.NoPos, "peer-lookup loop not found")
 	}
+	r8 := rep.Rule("R04.8", "the key/shard derivation is a function of its arguments: it modifies no package-level object", 1)
+	checkDerivationPure(prog, r8)
+}
+
+// checkDerivationPure: getShard runs before any shard lock is taken, concurrently in every worker and in the peer
+// server; anything package-level it modifies (a shared hasher, a scratch buffer) is raced on, and a lookup then lands in
+// the wrong shard.
+func checkDerivationPure(prog *core.Program, rr *core.RuleRun) {
+	var roots []*ssa.Function
+	for _, rel := range []string{"ipfix", "netflow/v9"} {
+		if c := findTplCache(prog, rel); c.getShard != nil {
+			roots = append(roots, c.getShard)
+		}
+	}
+	if len(roots) < 2 {
+		rr.Undecided("anchors", token.NoPos, "key derivations not resolved")
+		return
+	}
+	checkNoSharedWrites(prog, rr, roots, 2, func(sharedWrite) string { return "" },
+		"the derivation runs unlocked in every worker at once, so concurrent lookups corrupt each other's shard choice and a template is stored or searched in the wrong shard")
+}
+
+// checkKeyInjective implements R04.1 (also a premise of C10): the map key is wide enough for (address, id), derives
+// from both without a lossy step, and keeps the two texts apart.
+func checkKeyInjective(r1 *core.RuleRun, c *tplCache) {
+	mt := c.shardT.Underlying().(*types.Struct).Field(c.mapField).Type().Underlying().(*types.Map)
+	// ---- R04.1 (a) key type ----
+	wide := false
+	switch k := mt.Key().Underlying().(type) {
+	case *types.Basic:
+		wide = k.Kind() == types.String
+	case *types.Array:
+		wide = k.Len() >= 18
+	case *types.Struct:
+		wide = true // checked field-wise below by derivation
+	}
+	r1.Check(wide, c.rel+":key-type", c.shardT.Obj().Pos(), "key type "+mt.Key().String()+" can hold address and id",
+		fmt.Sprintf("the template map is keyed by %s, which cannot be injective on (16-octet address, 16-bit id) pairs: two exporter/id pairs with the same key share one entry and decode each other's data (an exporter chooses its ids, so collisions can be forced)", mt.Key().String()))
+	// ---- R04.1 (b,c) derivation in getShard ----
+	gname := core.FuncName(c.getShard)
+	var idP, addrP *ssa.Parameter
+	for _, p := range c.getShard.Params {
+		if b, ok := p.Type().Underlying().(*types.Basic); ok && b.Kind() == types.Uint16 {
+			idP = p
+		}
+		if typeIs(p.Type(), "net", "IP") {
+			addrP = p
+		}
+	}
+	allInstrs(c.getShard, func(ins ssa.Instruction) {
+		r, ok := ins.(*ssa.Return)
+		if !ok || len(r.Results) != 2 {
+			return
+		}
+		keyV := r.Results[1]
+		sl := core.BackwardSlice(keyV, core.SliceOpts{})
+		r1.Check(idP != nil && addrP != nil && sl[idP] && sl[addrP], gname+":key-depends-on-both", r.Pos(), "key derives from the address and the id",
+			"the cache key does not depend on both the exporter address and the template id: entries of different exporters or ids coincide")
+		lossy := ""
+		for v := range sl {
+			switch x := v.(type) {
+			case *ssa.BinOp:
+				switch x.Op {
+				case token.REM, token.AND, token.SHR, token.XOR, token.AND_NOT, token.QUO:
+					lossy = "operator " + x.Op.String()
+				}
+			case *ssa.Call:
+				n := calleeName(x)
+				if x.Common().IsInvoke() {
+					n = x.Common().Method.FullName()
+				}
+				if strings.Contains(n, "hash") || strings.Contains(n, "Sum") || strings.Contains(n, "crc") || strings.Contains(n, "fnv") || strings.Contains(n, "md5") || strings.Contains(n, "sha") {
+					lossy = "hash function " + n
+				}
+			case *ssa.Convert:
+				sb, ok1 := x.X.Type().Underlying().(*types.Basic)
+				db, ok2 := x.Type().Underlying().(*types.Basic)
+				if ok1 && ok2 && sb.Info()&types.IsInteger != 0 && db.Info()&types.IsInteger != 0 && intBits(db) < intBits(sb) {
+					lossy = "narrowing conversion " + sb.Name() + "->" + db.Name()
+				}
+			}
+		}
+		r1.Check(lossy == "", gname+":key-lossless", r.Pos(), "no lossy operation between (address, id) and the key",
+			"the cache key passes through a lossy operation ("+lossy+"): distinct (exporter, id) pairs can produce the same key")
+		if isStringType(keyV.Type()) {
+			var parts []ssa.Value
+			keyParts(keyV, &parts)
+			amb := false
+			prevVar := false
+			for _, p := range parts {
+				_, isConst := p.(*ssa.Const)
+				if !isConst && prevVar {
+					amb = true
+				}
+				if isConst {
+					if cv := p.(*ssa.Const).Value; cv == nil || cv.ExactString() == `""` {
+						continue
+					}
+				}
+				prevVar = !isConst
+			}
+			r1.Check(!amb && len(parts) >= 2, gname+":key-unambiguous", r.Pos(), "variable parts are separated by constant text",
+				"address text and id text are concatenated without a separator: \"10.0.0.1\"+\"256\" equals \"10.0.0.12\"+\"56\"")
+		}
+	})
 }
 
 func intBits(b *types.Basic) int {
